@@ -40,6 +40,12 @@ CLAIMS = {
          "Decides: encoder tables and fixed lengths equal RFC 1951; for all 3x11x5x16 configurations exactly one compress routine is reachable, level 0 / raw only reaches compress_stored (which reaches no match or literal recording), RLE and Filtered never reach compress_fast, the fixed strategy forces static blocks at every compress_block call, Huffman-only has a probe budget that makes find_match return at once, the run-length branch uses distance 1 without hash search, filtered mode never records a fresh match <= 5; code-length limits 15/15/7, dynamic header field widths, stored LEN/NLEN, BFINAL from flush == Finish; exactly one final block. NOT decided: completeness/optimality of generated codes, match validity, compression ratio."),
  "C11": ("finite-domain evaluation of configuration code + value-bound of the distance admission terms on MIR",
          "Decides (substantial): for every zlib configuration of with_params (and for every flags class x window_bits_max that later level/format changes can install) the upper bound of the admitted match distance — the term the distance is compared against in compress_fast, the max_dist argument of find_match, 1 in the run-length branch, evaluated with the invariant dict.size <= 32768 derived from all its writers — does not exceed the window the header declares. Two genuine defects found by this check were repaired (KF-1, KF-2; see known_findings.json)."),
+ "C16": ("call-shape rules, single-writer (field effects) and path tables on MIR, in the scalar and simd configurations",
+         "Decides: update_adler32 is exactly from_checksum(seed) / write(data) / checksum|finish on the library hasher with seed and data passed through unchanged, in both the adler2 and simd-adler32 builds, and is the crate's only caller into those libraries; mz_crc32_oxide likewise on crc32fast; the compressor's running sum is updated with exactly in_buf[..src_pos] after a successful compress routine; the decoder's running sum has Start and the epilogue update over out[out_pos..position) as its only writers; mz_adler32 / mz_crc32 return the initial value for NULL and otherwise forward (value as u32, the (ptr,len) slice) and widen; stream.adler is refreshed after every stream call. NOT decided: the arithmetic inside adler2, simd-adler32, crc32fast (external crates)."),
+ "C17": ("per-path null-fact discipline, path tables, finite-domain evaluation on the MIR of all exported extern \"C\" functions",
+         "Decides: every use (dereference, from_raw_parts, ptr::add/write/copy, unwrap of as_mut) of a pointer parameter of the 37 exported extern \"C\" functions happens on a path that has established the pointer is non-null; no field-less Rust enum is taken by value from C (known finding KF-4: tdefl_flush); every mz_* stream function reaches the oxide layer only through StreamOxide::try_new inside catch_unwind, NULL stream -> MZ_STREAM_ERROR, try_new rejects the other stream kind and custom allocators without touching the stream; mz_deflateInit2 / mz_inflateInit2 parameter validation over the quantifier's finite domain; next_in/next_out/total_in/total_out/adler accounting identities and the into_mz_stream write-back; status/flush enums keep their numeric values across the boundary. Genuine defect KF-3 (NULL dereferences in tinfl_*) was found by this check and repaired. NOT decided: byte-for-byte equality with the Rust API, guard-page behaviour, size arithmetic of the heap growth loops."),
+ "C19": ("item/impl facts, compile-time witness crate, liveness over the extracted automaton, record/rebuild symmetry on MIR",
+         "Decides: Clone on the decoder state types is #[derive]d over plain data (no pointers, cells, shared ownership); under serde, Serialize/Deserialize are derived, the derived serialize() writes every field, and no serde attribute other than the BigArray adapter occurs; witness crate bounds (Clone + Send + Sync + 'static, Serialize + DeserializeOwned); BlockBoundary has a single origin (non-final block under the flag), the exit hands back unread bytes and re-enters at ReadBlockHeader, block_boundary_state / from_block_boundary_state are field-for-field symmetric, and every scalar register that is live at ReadBlockHeader is either in the record or provably equal at every boundary to the constant the rebuild assigns; all registers are written back on every exit. NOT decided: equality of the resumed run with the uninterrupted one."),
  "C12": ("path tables and must-write effects on MIR",
          "Decides: the bit sequence of every flush marker equals the RFC 1951 empty stored / empty fixed block, with the *Opt forms only when unaligned; Full flush clears hash chains and dictionary size after a successful block; markers are emitted only with all input consumed, lookahead empty and nothing pending; flush conversions are total and value preserving; exits of the deflate() driver loop. NOT decided: prefix decodability and independence of the post-flush remainder for all inputs."),
  "C13": ("path-sensitive decision tables on MIR",
